@@ -56,6 +56,10 @@ var pcTemplates = []string{
 	`{"anyOf":[{"properties":{"a":{"default":1}}},{"properties":{"a":{"default":2},"b":{"type":"string"}}}]}`,
 	`{"type":"array","items":{"anyOf":[{"type":"integer"},` + pcObj + `]}}`,
 	`{"properties":{"q":{"$ref":"#/definitions/leafdef2"},"b":{"type":"string"}},"definitions":{"leafdef2":{"type":"integer","default":7}}}`,
+	// unusual member names (empty, dotted) and arrays nested directly in arrays
+	`{"properties":{"":{"type":"integer","default":9},"a.b":{"default":1},"b":{"type":"string"},"c":{"properties":{"":{"default":"e"},"x":{"default":"dx"}}}}}`,
+	`{"properties":{"m":{"type":"array","items":{"type":"array","items":` + pcObj + `}}}}`,
+	`{"type":"array","items":{"type":"array","items":{"type":"array","items":` + pcObj + `}}}`,
 	// members whose schema accepts null: a present null is a present value
 	`{"properties":{"a":{"default":5},"nn":{"type":["null","string"],"default":"x"},"c":{"properties":{"x":{"default":"dx"}}}},"patternProperties":{"^p_":{}}}`,
 	`{"allOf":[{"properties":{"nn":{"default":1}}},{"properties":{"a":{"default":2}}}],"additionalProperties":{"type":["null","object"],"properties":{"x":{"default":"dx"}}}}`,
@@ -68,6 +72,8 @@ var pcUniverses = []string{
 	`{"k":"y","t":[{"b":"s"},3,{"x":"v","q":1},{"q":2}],"r":{"x":"v","extra":1},"x1":3,"o":{},"n":{"n":{"n":4,"m":1,"p":0},"m":1}}`,
 	`{"k":1,"q":{"x":"v","y":2,"z":0},"p":{},"b":"s","ok":true}`,
 	`[1,{"a":1,"zz":2},{"b":"s","d":true},{}]`,
+	`{"":1,"a.b":2,"b":"s","c":{"":"v","z":1},"m":[[{"a":1,"q":1},{"b":"s","zz":0}],[],[{"d":true,"u":{}}]],"zz":1}`,
+	`[[[{"a":1,"zz":2}],[{}]],[[{"b":"s","q":0}],[]]]`,
 	`{"a":null,"nn":null,"b":"s","p_1":null,"p_2":"kept","c":{"x":null,"y":1},"o1":null,"zz":null,"l":[{"a":null},{"q":null}]}`,
 }
 
